@@ -202,3 +202,19 @@ def planSearch (r : SearchReq) (ver : VersionInfo) : SearchStmt :=
     limit := if r.limit > 0 then some (.int r.limit) else none }
 
 end Qryn.Tempo
+
+namespace Qryn.Tempo
+open Qryn Qryn.Sql
+
+/-- COUNTER-PATTERN (not the code): the span read that keeps its time conjuncts only when there is no index request —
+    "the index request is already restricted to the time span of the search" (seeded change C13-4). `Props/C13`
+    shows for which version states that is true (`idx_only_confined_iff`) and a database on which it returns a span
+    from outside the window (`idx_only_counterexample`). -/
+def planSearchIdxOnly (r : SearchReq) (ver : VersionInfo) : SearchStmt :=
+  match r.tags with
+  | some tags =>
+    { planSearch r ver with
+      conds := [.inIdx (.raw "(trace_id, span_id)") (idxQuery r ver tags)] ++ (spanDurConds r).map .plain }
+  | none => planSearch r ver
+
+end Qryn.Tempo
